@@ -10,6 +10,7 @@ import os
 import subprocess
 import sys
 import time
+import warnings
 
 import numpy as np
 import pandas as pd
@@ -254,6 +255,10 @@ def ep_visual(which, with_columns):
         real = pd.DataFrame(symarr('r', 2, dim + 1), columns=names, index=[4, 9])
         synth = pd.DataFrame(symarr('s', 2, dim + 1), columns=names, index=[9, 4])      # overlapping labels
         cols = list(reversed(names[1:dim + 1])) if with_columns else None        # not in frame order
+        if with_columns:
+            # a missing value in a column that is not plotted: the row is still one of the given rows
+            real.iloc[0, 0] = float('nan')
+            synth.iloc[1, 0] = float('nan')
         px = PxRecorder()
         if which.startswith('compare'):
             args = {'real': real if with_columns else real[names[:dim]], 'synth': synth if with_columns else synth[names[:dim]], 'columns': cols}
@@ -506,6 +511,21 @@ def concrete_mutation(name):
                     got = np.asarray(getattr(tr, ax), dtype=float)
                     if not np.array_equal(np.sort(got), np.sort(src[c_].to_numpy())):
                         return True, f'{which}: trace {tr.name} axis {ax} does not show column {c_} of the given rows'
+        # rows with a missing value in a column that is *not* plotted are still given rows of the figure
+        an = a.copy()
+        an.loc[an.index[0], 'p'] = np.nan
+        try:
+            fign = VV.__dict__[which](an, b.copy(), columns=list(cols)) if which.startswith('compare') else VV.__dict__[which](an, columns=list(cols))
+            for tr in fign.data:
+                if tr.name in ('Real', None, '') or not which.startswith('compare'):
+                    if tr.name == 'Synthetic':
+                        continue
+                    got = np.asarray(getattr(tr, 'x'), dtype=float)
+                    if len(got) != len(an):
+                        return True, (f'{which}: {len(got)} of {len(an)} given rows are drawn when a column that is not plotted '
+                                      f'({"p"!r}) holds a missing value')
+        except Exception as e:
+            return True, f'{which} raises {type(e).__name__}: {e} for a frame with NaN in a column that is not plotted'
         if cols != before:
             return True, f'{which}: caller\'s columns list changed from {before} to {cols}'
         if not a.equals(df) or not b.equals(df + 10):
@@ -539,6 +559,36 @@ def concrete_mutation(name):
         GaussianMultivariate(distribution=cfg).fit(X)
         if not (X.equals(X0) and list(X.index) == list(X0.index) and list(cfg) == ['c']):
             return True, 'GaussianMultivariate.fit changed the caller\'s DataFrame (values or index) or distribution dict'
+        return False, ''
+    fam = name.split('.')[0]
+    if fam in ('clayton', 'frank', 'frank+', 'gumbel'):
+        from copulas.bivariate import Clayton, Frank, Gumbel
+        cls = {'clayton': Clayton, 'frank': Frank, 'frank+': Frank, 'gumbel': Gumbel}[fam]
+        meth = name.split('.')[1].split('(')[0]
+        c = cls()
+        c.theta, c.tau = 2.5, (0.5 if fam != 'gumbel' else 0.6)
+        base = np.array([[0.3, 0.0], [0.2, 0.7], [1.0, 0.4], [0.0, 1.0], [0.65, 0.35], [0.5, 0.5], [0.8, 0.9]])
+        for X in (base.copy(), np.asfortranarray(base), np.hstack([base, base])[:, 1:3]):
+            owner = X.base if X.base is not None else X
+            own0 = np.array(owner, copy=True)
+            X0 = np.array(X, copy=True)
+            try:
+                with np.errstate(all='ignore'), warnings.catch_warnings():
+                    warnings.simplefilter('ignore')
+                    if meth == 'percent_point':
+                        y, v = X[:, 0], X[:, 1]
+                        c.percent_point(y[1:3] * 0 + np.array([0.2, 0.6]), v[1:3])
+                    elif meth == 'fit':
+                        cls().fit(X[4:])
+                    else:
+                        getattr(c, meth)(X)
+                        if meth == 'probability_density':
+                            c.log_probability_density(X)
+            except Exception:
+                pass
+            if not (np.array_equal(X, X0) and np.array_equal(owner, own0)):
+                i, j = np.argwhere(X != X0)[0]
+                return True, f'{type(c).__name__}.{meth}: the caller\'s array was modified: X[{i},{j}] {X0[i, j]!r} -> {X[i, j]!r}'
         return False, ''
     return False, 'no concrete replay for this entry point'
 
